@@ -541,7 +541,7 @@ fn build_fan_graph(rng: &mut Rng, w: &World, n: usize, chain: ChainHash, v: u64,
 	ng
 }
 
-fn dump_graph(ng: &Graph, w: &World) -> Vec<Chan> {
+fn dump_graph<GL: lightning::util::logger::Logger>(ng: &NetworkGraph<GL>, w: &World) -> Vec<Chan> {
 	let ro = ng.read_only();
 	let mut out = vec![];
 	let mut scids: Vec<u64> = ro.channels().unordered_iter().map(|(k, _)| *k).collect();
@@ -1041,6 +1041,95 @@ fn first_hop_cases(rec: &mut Rec, rng: &mut Rng, w: &World, n: usize) {
 	rec.notes.insert("firsthop".into(), format!("{} ChannelDetails with independently drawn fields through the real CandidateRouteHop::FirstHop accessors: minimum below the current one {} times, liquidity above the current limit {} times, fees/cltv non-zero {} times (at most {} reported each)", n, n_min, n_cap, n_fee, KF_CAP));
 }
 
+/// the raw ChannelUpdateInfo::htlc_maximum_msat of the direction of `ci` TOWARDS `to`
+fn hmax_raw(ci: &lightning::routing::gossip::ChannelInfo, to: &NodeId) -> u64 { if *to == ci.node_two { ci.one_to_two.as_ref().map_or(0, |u| u.htlc_maximum_msat) } else { ci.two_to_one.as_ref().map_or(0, |u| u.htlc_maximum_msat) } }
+
+/// C16-r5b: counts the router's own summary line "Ignored N candidate hops due to insufficient value contribution, …" (get_route, after the
+/// search): [value contribution, path length, CLTV delta, previous failure, htlc_minimum, avoid overpaying, total fee] — evidence that a
+/// guard of add_entry! was reached by a probe
+struct GuardLogger;
+static GUARD_COUNTS: std::sync::Mutex<[u64; 7]> = std::sync::Mutex::new([0; 7]);
+impl lightning::util::logger::Logger for GuardLogger {
+	fn log(&self, r: lightning::util::logger::Record) {
+		let t = format!("{}", r.args);
+		if let Some(rest) = t.strip_prefix("Ignored ") {
+			let nums: Vec<u64> = rest.split(|c: char| !c.is_ascii_digit()).filter(|x| !x.is_empty()).filter_map(|x| x.parse().ok()).collect();
+			// numbers in the text: the 7 counters (the text also contains no other digits before "Total")
+			if nums.len() >= 7 { let mut g = GUARD_COUNTS.lock().unwrap(); for i in 0..7 { g[i] += nums[i]; } }
+		}
+	}
+}
+static GUARD: GuardLogger = GuardLogger;
+const GUARD_NAMES: [&str; 7] = ["value-contribution", "path-length", "cltv-delta", "previously-failed", "htlc-minimum", "avoid-overpaying", "total-fee"];
+
+/// C16-r5b: requests that aim at each guard of add_entry! exactly AT its boundary and 1 beyond it, through the real find_route, on the line
+/// 0 -f-> 1 -p2-> 2 -p3-> 3 (payee). Every outcome is judged by `record` (a returned route must satisfy every clause); a request that meets
+/// the guard exactly must get a route (the only path is sufficient and no other limit binds).
+fn guard_cases(rec: &mut Rec, st: &mut Stats, w: &World, secp: &Secp256k1<bitcoin::secp256k1::All>, rng: &mut Rng, k: usize) {
+	let mut scratch: Vec<lightning::routing::router::Path> = vec![];
+	for _ in 0..k {
+		let amt = match rng.below(3) { 0 => rng.range(2, 50), 1 => rng.range(1000, 100_000), _ => rng.range(1_000_000, 50_000_000) };
+		let fee = rng.range(1, 2000);
+		for (guard, deltas) in [("htlc_minimum", [-1i64, 0, 1]), ("contribution", [-1, 0, 1]), ("cltv", [-1, 0, 1]), ("path_length", [-1, 0, 1]), ("fee", [-1, 0, 1]), ("first_hop_minimum", [-1, 0, 1]), ("first_hop_limit", [-1, 0, 1]), ("excluded", [0, 0, 0])] {
+			for (di, d) in deltas.iter().enumerate() {
+				if guard == "excluded" && di > 0 { continue; }
+				let adj = |x: u64| (x as i64 + d) as u64;
+				// defaults: roomy
+				let big = amt.saturating_mul(1000) + 1_000_000_000;
+				let (mut min2, mut max2, mut fmin, mut flim, mut maxcltv, mut maxlen, mut maxfee, mut base3, mut excl) = (0u64, big, 0u64, big, 1008u64, 19u64, "-".to_string(), 0u64, String::from("X 0"));
+				// `slack >= 0` = the guard is met (exactly when 0)
+				let slack: i64 = match guard {
+					"htlc_minimum" => { min2 = adj(amt); -d },                       // channel 2 needs at least amt + d
+					"contribution" => { max2 = adj(amt); *d },                       // channel 2 carries at most amt + d
+					"cltv" => { maxcltv = adj(40 + 80 + 80); *d },                    // final 40 + shadow reserve 80 + the two forwarding deltas 40 + 40
+					"path_length" => { maxlen = adj(3); *d },
+					"fee" => { base3 = fee; maxfee = adj(fee).to_string(); *d },
+					"first_hop_minimum" => { fmin = adj(amt); -d },
+					"first_hop_limit" => { flim = adj(amt); *d },
+					_ => { excl = "X 1 3".to_string(); -1 },
+				};
+				let line = format!("noroute 0 3 {} {} {} 1 {} 40 1 0 0 1 0 {} B 0 G 5 p 2 - 1 2 1 {} {} - 0 0 40 p 2 - 2 1 1 0 {} - 0 0 40 p 3 - 2 3 1 0 {} - {} 0 40 p 3 - 3 2 1 0 {} - 0 0 40 f 2000001 1000001 0 1 1 {} {} - 0 0 0",
+					amt, maxfee, maxcltv, maxlen, excl, min2, max2, big, big, base3, big, fmin, flim);
+				let c = match parse_case(&line, w, secp, &GUARD) { Some(c) => c, None => continue };
+				let mut g: Vec<Chan> = dump_graph(&c.ng, w);
+				g.extend(c.g.iter().filter(|x| x.kind != Kind::Pub).cloned());
+				let gs = graph_str(&g);
+				*GUARD_COUNTS.lock().unwrap() = [0; 7];
+				let res = run_case(&c, w, &GUARD);
+				let counts = *GUARD_COUNTS.lock().unwrap();
+				let hit: Vec<&str> = (0..7).filter(|i| counts[*i] > 0).map(|i| GUARD_NAMES[i]).collect();
+				let outcome = match &res { Ok(Ok(_)) => "route", Ok(Err(_)) => "noroute", Err(_) => "panic" };
+				*rec.classes.entry(format!("guard:{}/{}:{}/ignored-by[{}]", guard, if slack > 0 { "1-inside" } else if slack == 0 { "exactly-at" } else { "1-beyond" }, outcome, hit.join(","))).or_insert(0) += 1;
+				if slack >= 0 && outcome != "route" { rec.oracle_fail(format!("guard probe {} ({}): the only path 0 -> 1 -> 2 -> 3 meets every limit ({} exactly at its boundary) but find_route answered {:?}; router's ignored-candidate counters {:?} | noroute {} {}", guard, if slack == 0 { "exactly at" } else { "1 inside" }, guard, res.as_ref().map(|r| r.as_ref().map(|_| "route")), counts, req_str(&c.q), gs)); }
+				record(rec, st, w, &g, &gs, &c.q, 4, true, true, &c.blinding_points, res, &mut scratch);
+			}
+		}
+	}
+}
+
+/// C16-r5b: find_route = get_route + add_random_cltv_offset. Against the raw search (hook get_route_raw, same inputs): the offset only ever
+/// RAISES the last RouteHop's cltv_expiry_delta, never past max_total_cltv_expiry_delta, and changes nothing else. A raw search that chose
+/// other channels (hash-map order) is not compared.
+fn cltv_offset_check(rec: &mut Rec, found: &Route, raw: Result<Result<Route, &'static str>, String>, q: &Req, input: &str) {
+	let raw = match raw { Ok(Ok(r)) => r, _ => { *rec.classes.entry("cltvoffset:raw-search-differs(not compared)".into()).or_insert(0) += 1; return; } };
+	let scids = |r: &Route| -> Vec<Vec<u64>> { r.paths.iter().map(|p| p.hops.iter().map(|h| h.short_channel_id).collect()).collect() };
+	if scids(found) != scids(&raw) { *rec.classes.entry("cltvoffset:raw-search-differs(not compared)".into()).or_insert(0) += 1; return; }
+	let mut added = false;
+	for (pf, pr) in found.paths.iter().zip(raw.paths.iter()) {
+		let n = pf.hops.len();
+		for j in 0..n {
+			let (a, b) = (&pf.hops[j], &pr.hops[j]);
+			if a.fee_msat != b.fee_msat || a.pubkey != b.pubkey { rec.oracle_fail(format!("add_random_cltv_offset changed more than a CLTV delta: hop {} of path {:?} has fee_msat {} (raw search: {}) | {}", j, scids(found), a.fee_msat, b.fee_msat, input)); return; }
+			if j + 1 < n && a.cltv_expiry_delta != b.cltv_expiry_delta { rec.oracle_fail(format!("add_random_cltv_offset changed the cltv_expiry_delta of a NON-final hop: hop {} {} -> {} | {}", j, b.cltv_expiry_delta, a.cltv_expiry_delta, input)); return; }
+			if j + 1 == n && a.cltv_expiry_delta < b.cltv_expiry_delta { rec.oracle_fail(format!("add_random_cltv_offset LOWERED the final cltv_expiry_delta {} -> {} | {}", b.cltv_expiry_delta, a.cltv_expiry_delta, input)); return; }
+			if j + 1 == n && a.cltv_expiry_delta > b.cltv_expiry_delta { added = true; }
+		}
+		let (tf, tr): (u64, u64) = (pf.hops.iter().map(|h| h.cltv_expiry_delta as u64).sum(), pr.hops.iter().map(|h| h.cltv_expiry_delta as u64).sum());
+		if tr <= q.maxcltv && tf > q.maxcltv { rec.oracle_fail(format!("add_random_cltv_offset pushed the path's total CLTV delta {} -> {} past max_total_cltv_expiry_delta {} | {}", tr, tf, q.maxcltv, input)); return; }
+	}
+	*rec.classes.entry(if added { "cltvoffset:offset-added(final hop only, within the limit)" } else { "cltvoffset:no-offset" }.into()).or_insert(0) += 1;
+}
+
 fn router_model(args: &Args) {
 	let mut rec = Rec::new(&args.out, "c16router");
 	let mut rng = Rng::new(args.seed ^ 0x0c16);
@@ -1085,6 +1174,7 @@ fn router_model(args: &Args) {
 		let reproduced = rec.oracle_failures.len() > before;
 		rec.notes.insert(format!("probe_{}", k + 1), format!("{}: {} | unchanged router: {} | this run: {} | input: {} {}", name, if reproduced { "REPRODUCED (oracle failure)" } else if name.starts_with("FA-") && outcome.contains("invalid") { "INVALID route" } else if name.starts_with("FA-") { "valid, as it must be" } else { "not reproduced (the router no longer shows it)" }, expect, outcome, req_str(&c.q), gs));
 	}
+	{ let mut rng4 = Rng::new(args.seed ^ 0xc16_6a2d); guard_cases(&mut rec, &mut st, &w, &secp, &mut rng4, if args.thorough { 40 } else { 6 }); }
 	for _ in 0..n_graphs {
 		let n = match rng.below(10) { 0..=5 => rng.range(4, 9), 6..=8 => rng.range(10, 20), _ => rng.range(21, 40) } as usize;
 		let amt_hint = match rng.below(6) { 0 => rng.range(1, 20), 1 => rng.range(1000, 100_000), 2 => 1000 * rng.range(1, 1_000_000), 3 => rng.range(1, 5_000_000_000), _ => rng.range(10_000, 50_000_000) };
@@ -1096,6 +1186,17 @@ fn router_model(args: &Args) {
 		let g = dump_graph(&ng, &w);
 		if g.is_empty() { rec.discarded += 1; continue; }
 		let gs = graph_str(&g);
+		// C16-r5b: the REAL DirectedChannelInfo::effective_capacity of up to 4 channel directions of this graph against the translated function
+		{ let ro = ng.read_only(); let mut k = 0;
+		  for (scid, ci) in ro.channels().unordered_iter() { if k >= 4 { break; }
+			for to in [&ci.node_one, &ci.node_two] { if let Some((dir, _)) = ci.as_directed_to(to) { k += 1;
+				let cap = dir.effective_capacity();
+				let ans = match cap { EffectiveCapacity::Total { capacity_msat, htlc_maximum_msat } => format!("total {} {}", capacity_msat, htlc_maximum_msat), EffectiveCapacity::AdvertisedMaxHTLC { amount_msat } => format!("adv {}", amount_msat), _ => "other".to_string() };
+				let lim = vr::max_htlc_from_capacity(cap, 0);
+				let want = ci.capacity_sats.map_or(hmax_raw(ci, to), |s| hmax_raw(ci, to).min(s * 1000));
+				if lim > want { rec.oracle_fail(format!("DirectedChannelInfo::effective_capacity: channel {} may carry {} msat > min(htlc_maximum_msat {}, capacity {:?} sat)", scid, lim, hmax_raw(ci, to), ci.capacity_sats)); }
+				rec.case(&format!("pubcap {} {}", hmax_raw(ci, to), ci.capacity_sats.map_or("-".to_string(), |s| s.to_string())), &format!("{} max {}", ans, lim), if ci.capacity_sats.is_some() { "pubcap:total" } else { "pubcap:advertised" }, true);
+			} } } }
 		let prob_scorer = ProbabilisticScorer::new(ProbabilisticScoringDecayParameters::default(), &ng, &LOGGER);
 		let prob_params = ProbabilisticScoringFeeParameters::default();
 		let mut no_keep: Vec<lightning::routing::router::Path> = vec![];
@@ -1138,7 +1239,32 @@ fn router_model(args: &Args) {
 				1 => find_route(&w.pks[payer], &params, &ng, None, &LOGGER, &FixedPenaltyScorer::with_penalty(0), &(), &seed_bytes),
 				_ => find_route(&w.pks[payer], &params, &ng, None, &LOGGER, &FixedPenaltyScorer::with_penalty(rng_penalty(seed_bytes[0])), &(), &seed_bytes),
 			}));
+			let found: Option<Route> = match &res { Ok(Ok(r)) => Some(r.clone()), _ => None };
 			record(&mut rec, &mut st, &w, &g, &gs, &q, n, false, false, &[], res, &mut no_keep);
+			if let Some(route) = found {
+				let input = format!("noroute {} {}", req_str(&q), gs);
+				// C16-r5b: the same search without add_random_cltv_offset
+				let raw = guarded(AssertUnwindSafe(|| match scorer_kind {
+					0 => vr::get_route_raw(&w.pks[payer], &params, &ng, None, &LOGGER, &prob_scorer, &prob_params, &seed_bytes),
+					1 => vr::get_route_raw(&w.pks[payer], &params, &ng, None, &LOGGER, &FixedPenaltyScorer::with_penalty(0), &(), &seed_bytes),
+					_ => vr::get_route_raw(&w.pks[payer], &params, &ng, None, &LOGGER, &FixedPenaltyScorer::with_penalty(rng_penalty(seed_bytes[0])), &(), &seed_bytes),
+				}));
+				cltv_offset_check(&mut rec, &route, raw, &q, &input);
+				// C16-r5b: build_route_from_hops along the nodes of a single-path route just found: what it returns is a route of the router
+				// like any other (scorer 20 on the line; the replay sub-command does not reproduce it)
+				if route.paths.len() == 1 && route.paths[0].hops.len() <= 19 {
+					let hops: Vec<PublicKey> = route.paths[0].hops.iter().map(|h| h.pubkey).collect();
+					let res2 = guarded(AssertUnwindSafe(|| lightning::routing::router::build_route_from_hops(&w.pks[payer], &hops, &params, &ng, &LOGGER, &seed_bytes)));
+					match &res2 {
+						Ok(Ok(r2)) => { let same = r2.paths.len() == 1 && r2.paths[0].hops.iter().map(|h| h.pubkey).collect::<Vec<_>>() == hops;
+							*rec.classes.entry(if same { "buildroute:route-along-the-given-hops" } else { "buildroute:route-over-other-nodes" }.into()).or_insert(0) += 1;
+							let mut q2 = q.clone(); q2.scorer = 20;
+							record(&mut rec, &mut st, &w, &g, &gs, &q2, n, false, false, &[], res2, &mut no_keep); },
+						Ok(Err(_)) => { *rec.classes.entry("buildroute:err".into()).or_insert(0) += 1; },
+						Err(_) => { let mut q2 = q.clone(); q2.scorer = 20; record(&mut rec, &mut st, &w, &g, &gs, &q2, n, false, false, &[], res2, &mut no_keep); },
+					}
+				}
+			}
 		}
 		// ---- extended requests on the same graph: first hops, route hints, blinded tails, fed scorer, in-flight HTLCs
 		let mut fed_scorer = ProbabilisticScorer::new(ProbabilisticScoringDecayParameters::default(), &ng, &LOGGER);
